@@ -16,6 +16,10 @@ import threading
 from whoosh.filedb.filestore import FileStorage, RamStorage
 
 
+# (kept aside: a crash-injection mode of C02 replaces the built-in open)
+_OPEN = open
+
+
 class Log(object):
     def __init__(self, path=None):
         self.events = []
@@ -80,7 +84,7 @@ class Log(object):
             e.update(kw)
             self.events.append(e)
             if self.path:
-                with open(self.path, "a") as f:
+                with _OPEN(self.path, "a") as f:
                     f.write(json.dumps(e) + "\n")
             return e
 
